@@ -3,6 +3,7 @@ package rules
 import (
 	"fmt"
 	"go/token"
+	"go/types"
 
 	"golang.org/x/tools/go/ssa"
 
@@ -29,10 +30,63 @@ var bracketParsers = map[string]bool{
 // node fields that hold an expression nested in brackets
 var bracketFields = map[string]bool{"IndexExpr.Y": true, "GroupExpr.X": true}
 
+// boolParserFields: the bool fields of js.Parser (candidates for the [In] flag).
+func boolParserFields(r *core.Run) []string {
+	pk := r.Prog.Pkg("js")
+	if pk == nil {
+		return nil
+	}
+	tn, _ := pk.Types.Scope().Lookup("Parser").(*types.TypeName)
+	if tn == nil {
+		return nil
+	}
+	st, _ := tn.Type().Underlying().(*types.Struct)
+	var out []string
+	for i := 0; st != nil && i < st.NumFields(); i++ {
+		if b, ok := st.Field(i).Type().Underlying().(*types.Basic); ok && b.Kind() == types.Bool {
+			out = append(out, st.Field(i).Name())
+		}
+	}
+	return out
+}
+
+type inSite struct {
+	fn   *ssa.Function
+	in   ssa.Instruction
+	what string
+}
+
+// knownTrueAt: the set of target instructions of fn at which Parser.<field> is known true on every non-error path.
+func knownTrueAt(fn *ssa.Function, field string, targets map[ssa.Instruction]string) map[ssa.Instruction]bool {
+	bad := map[ssa.Instruction]bool{}
+	pathFlow(fn, pstate{}, func(s pstate, in ssa.Instruction) pstate {
+		if st, ok := in.(*ssa.Store); ok {
+			if fa, isFA := st.Addr.(*ssa.FieldAddr); isFA && fieldKeyOf(fa.X.Type(), fa.Field) == "Parser."+field {
+				if c, isC := st.Val.(*ssa.Const); isC && c.Value != nil && c.Value.String() == "true" {
+					s.v[0] = 1
+				} else {
+					s.v[0] = 0
+				}
+			}
+		}
+		if _, isT := targets[in]; isT && s.v[0] != 1 && !s.err {
+			bad[in] = true
+		}
+		return s
+	}, func(pstate, *ssa.Return) {})
+	good := map[ssa.Instruction]bool{}
+	for in := range targets {
+		if !bad[in] {
+			good[in] = true
+		}
+	}
+	return good
+}
+
 func runInCtx(r *core.Run) {
-	sites := 0
+	var sites []inSite
+	perFn := map[*ssa.Function]map[ssa.Instruction]string{}
 	for _, fn := range parserFuncs(r) {
-		// does the function contain a target at all?
 		targets := map[ssa.Instruction]string{}
 		for _, b := range fn.Blocks {
 			for _, in := range b.Instrs {
@@ -66,48 +120,53 @@ func runInCtx(r *core.Run) {
 		if len(targets) == 0 {
 			continue
 		}
-		// a callee that sets p.in itself before parsing anything is fine whatever the caller does
-		bad := map[ssa.Instruction]bool{}
-		count := map[string]int{}
-		pathFlow(fn, pstate{}, func(s pstate, in ssa.Instruction) pstate {
-			if st, ok := in.(*ssa.Store); ok {
-				if fa, isFA := st.Addr.(*ssa.FieldAddr); isFA && fieldKeyOf(fa.X.Type(), fa.Field) == "Parser.in" {
-					if c, isC := st.Val.(*ssa.Const); isC && c.Value != nil && c.Value.String() == "true" {
-						s.v[0] = 1
-					} else {
-						s.v[0] = 0
-					}
-				}
-			}
-			if _, isT := targets[in]; isT && s.v[0] != 1 && !s.err {
-				bad[in] = true
-			}
-			return s
-		}, func(pstate, *ssa.Return) {})
-		// report per target (ordered)
+		perFn[fn] = targets
 		for _, b := range fn.Blocks {
 			for _, in := range b.Instrs {
-				what, ok := targets[in]
-				if !ok {
-					continue
+				if what, ok := targets[in]; ok {
+					sites = append(sites, inSite{fn, in, what})
 				}
-				if calleeSetsIn(in.(*ssa.Call).Call.StaticCallee()) {
-					what += " (callee sets [In] itself)"
-					bad[in] = false
-				}
-				sites++
-				k := fmt.Sprintf("%s calls %s", fnLabel(fn), what)
-				count[k]++
-				r.Check(!bad[in], fmt.Sprintf("%s #%d with [In] set", k, count[k]), in.Pos(), "",
-					"the inside of a bracketed construct is parsed on a path where Parser.in has not been set to true: inside a `for` head (where [In] is cleared) a valid `in` operator between these brackets, e.g. for(x = a?.[b in c];;), is rejected")
 			}
 		}
 	}
-	r.Floor("bracketed parse sites", sites, 10)
+	// the [In] flag is the bool field of the parser that is set before (the majority of) these sites
+	best, bestN := "", -1
+	goodBy := map[string]map[ssa.Instruction]bool{}
+	for _, f := range boolParserFields(r) {
+		good := map[ssa.Instruction]bool{}
+		for fn, targets := range perFn {
+			for in := range knownTrueAt(fn, f, targets) {
+				good[in] = true
+			}
+		}
+		goodBy[f] = good
+		if len(good) > bestN {
+			best, bestN = f, len(good)
+		}
+	}
+	if best == "" || 2*bestN <= len(sites) {
+		r.Unknown("the parser's [In] flag", token.NoPos, "no bool field of js.Parser is set to true before the majority of the bracketed parse sites: the field that models the grammar parameter [In] cannot be identified")
+		return
+	}
+	r.Note("R-INCTX: the grammar parameter [In] is modelled by the field Parser.%s (set before %d of %d bracketed parse sites)", best, bestN, len(sites))
+	count := map[string]int{}
+	for _, s := range sites {
+		what := s.what
+		ok := goodBy[best][s.in]
+		if !ok && calleeSetsIn(s.in.(*ssa.Call).Call.StaticCallee(), best) {
+			what += " (callee sets [In] itself)"
+			ok = true
+		}
+		k := fmt.Sprintf("%s calls %s", fnLabel(s.fn), what)
+		count[k]++
+		r.Check(ok, fmt.Sprintf("%s #%d with [In] set", k, count[k]), s.in.Pos(), "",
+			"the inside of a bracketed construct is parsed on a path where the parser's [In] flag has not been set to true: inside a `for` head (where [In] is cleared) a valid `in` operator between these brackets, e.g. for(x = a?.[b in c];;), is rejected")
+	}
+	r.Floor("bracketed parse sites", len(sites), 8)
 }
 
-// calleeSetsIn: the callee stores true to Parser.in before its first call of parseExpression.
-func calleeSetsIn(f *ssa.Function) bool {
+// calleeSetsIn: the callee stores true to the [In] field before its first call of parseExpression.
+func calleeSetsIn(f *ssa.Function, field string) bool {
 	if f == nil || len(f.Blocks) == 0 {
 		return false
 	}
@@ -115,7 +174,7 @@ func calleeSetsIn(f *ssa.Function) bool {
 	found := false
 	pathFlow(f, pstate{}, func(s pstate, in ssa.Instruction) pstate {
 		if st, isSt := in.(*ssa.Store); isSt {
-			if fa, isFA := st.Addr.(*ssa.FieldAddr); isFA && fieldKeyOf(fa.X.Type(), fa.Field) == "Parser.in" {
+			if fa, isFA := st.Addr.(*ssa.FieldAddr); isFA && fieldKeyOf(fa.X.Type(), fa.Field) == "Parser."+field {
 				if c, isC := st.Val.(*ssa.Const); isC && c.Value != nil && c.Value.String() == "true" {
 					s.v[0] = 1
 				} else {
